@@ -536,10 +536,14 @@ func counterBoundInvariant(fn *ssa.Function, li *loopInfo) *Clause {
 	if !ok || id.Name != as.Lhs[0].(*ast.Ident).Name {
 		return nil
 	}
-	txt := "0 <= " + id.Name + " && " + id.Name + " <= " + nodeText(fn.Prog.Fset, be.Y)
+	// the counter is referred to by a made-up name bound to exactly this variable (the function may have several
+	// locals of the same name)
+	alias := fmt.Sprintf("gocvctr%d", li.number)
+	txt := "0 <= " + alias + " && " + alias + " <= " + nodeText(fn.Prog.Fset, be.Y)
 	e, err := parseExpr(txt)
 	if err != nil {
 		return nil
 	}
-	return &Clause{Kind: "invariant", Text: txt + "  (synthesised: the loop was a range loop when the contract was written)", Expr: e, Label: "autoinv"}
+	shown := "0 <= " + id.Name + " && " + id.Name + " <= " + nodeText(fn.Prog.Fset, be.Y)
+	return &Clause{Kind: "invariant", Text: shown + "  (synthesised: the loop was a range loop when the contract was written)", Expr: e, Label: "autoinv"}
 }
